@@ -585,6 +585,29 @@ fn run_one(rt: &tokio::runtime::Runtime, dir: &Path, case: &Value) -> (String, S
 			let bytes: Vec<u8> = case["bytes"].as_array().unwrap().iter().map(|b| b.as_u64().unwrap() as u8).collect();
 			run_text(rt, dir, case["dec"].as_str().unwrap(), &bytes)
 		}
+		"vplnum" => {
+			// a special numeric token in one argument position of filter_bbox (1..4) / filter_zoom min (5) / max (6), over a
+			// generated source and over a container source
+			let tok = case["tok"].as_str().unwrap();
+			let pos = case["pos"].as_u64().unwrap() as usize;
+			let mut r = ("value".to_string(), String::new());
+			for base in ["from_debug format=pbf", "from_container filename=src1"] {
+				let t = match pos {
+					1..=4 => {
+						let mut v = ["-10", "-10", "10", "10"].map(|x| x.to_string());
+						v[pos - 1] = tok.to_string();
+						format!("{base} | filter_bbox bbox=[{}]", v.join(","))
+					}
+					5 => format!("{base} | filter_zoom min={tok}"),
+					_ => format!("{base} | filter_zoom max={tok}"),
+				};
+				let r2 = run_text(rt, dir, "vpl", t.as_bytes());
+				if worst(&r.0, &r2.0) != r.0 {
+					r = r2;
+				}
+			}
+			r
+		}
 		"csvrows" => {
 			// a table by shape: header "rid,c1,c2"[..h], row i with n fields "i,v,v,..." (0 fields = an empty line)
 			let h = case["header"].as_u64().unwrap() as usize;
